@@ -44,7 +44,7 @@ class StatisticsEndpoint(EndpointListener, Endpoint):
         self.endpoint.send(socket_address, packet)
 
         prefix = packet[:22]
-        if prefix not in list(self.statistics.keys()) or len(packet) < 22:
+        if prefix not in list(self.statistics.keys()) or len(packet) < 23:
             return
 
         self.add_sent_stat(prefix, packet[22], len(packet))
